@@ -1111,6 +1111,14 @@ func (env *SpecEnv) call(c SCall) TVal {
 			env.fail("addr: %v", err)
 		}
 		return TVal{T: fc.interiorTerm(pt.Elem(), idx, base.T), Ty: types.NewPointer(st.Field(idx).Type())}
+	case "spawned":
+		// spawned("<contract key>"): a goroutine running that function was started (see fnvals.go)
+		argN(1)
+		lit, ok := c.Args[0].(SStrLit)
+		if !ok {
+			env.fail("spawned needs a contract key literal")
+		}
+		return TVal{T: fc.heapGet(env.Cur, spawnedVar(env.PkgPath, lit.Val)), Ty: tBool}
 	case "keyWith":
 		// keyWith(m, "F", v): the key of the entry of map m whose field F is v (see fnvals.go)
 		argN(3)
